@@ -185,3 +185,230 @@ class BoundaryGen(AllowedGen):
         if self.r.random() < self.p_bare:
             return self.bare()
         return super().top(d)
+
+
+# ------------------------------------------------------------------------------------------------ round 4
+# Operands of every KIND the grammar can build (numbers, booleans, strings, lists, tuples — each also in its EMPTY / zero form), so
+# that every operator meets every pairing of kinds: where Python raises TypeError the engine must fail, where it does not the value
+# must be Python's.
+KIND_ATOMS = {
+    "int": ["0", "1", "2", "(-1)", "3"],
+    "float": ["0.0", "1.5", "(-2.0)"],
+    "bool": ["True", "False"],
+    "str": ["''", "'ab'", "'a'", "'0'"],
+    "list": ["[]", "[1, 2]", "[0]", "[[]]", "['a']"],
+    "tuple": ["()", "(1,)", "(1, 2)", "((),)", "('a',)"],
+}
+ALL_ATOMS = [a for k in ("int", "float", "bool", "str", "list", "tuple") for a in KIND_ATOMS[k]]
+SEQ_ATOMS = KIND_ATOMS["str"] + KIND_ATOMS["list"] + KIND_ATOMS["tuple"]
+BINOPS = ["+", "-", "*", "/", "//", "%", "**", "==", "!=", "<", "<=", ">", ">="]
+UNOPS = ["-", "+", "not "]
+FUN_ON_ATOM = ["len", "sum", "max", "min", "abs", "bool", "int", "float", "round", "sqrt", "floor"]
+
+
+def _build_sweep():
+    out = []
+    for op in BINOPS:
+        for a in ALL_ATOMS:
+            for b in ALL_ATOMS:
+                if op == "**" and b in ("3", "(-2.0)") and a not in ("0", "1", "2", "(-1)", "3", "0.0", "1.5", "(-2.0)", "True", "False"):
+                    continue
+                out.append("%s %s %s" % (a, op, b))
+    for op in UNOPS:
+        for a in ALL_ATOMS:
+            out.append("%s%s" % (op, a))
+    for f in FUN_ON_ATOM:
+        for a in ALL_ATOMS:
+            out.append("%s(%s)" % (f, a))
+    for f in ("max", "min", "sum", "pow", "round", "atan2", "gcd", "log"):
+        for a in ALL_ATOMS[::2]:
+            for b in ALL_ATOMS[1::3]:
+                out.append("%s(%s, %s)" % (f, a, b))
+    for a in SEQ_ATOMS:
+        for b in SEQ_ATOMS:
+            out.append("len(%s + %s)" % (a, b))
+            out.append("(%s + %s) == %s" % (a, b, a))
+            out.append("%s if %s + %s else %s" % (a, a, b, b))
+    return out
+
+
+KIND_SWEEP = _build_sweep()
+
+# integers (most of them exactly representable as a double) whose float / complex twin is numerically EQUAL: equal-but-distinct
+# values of different numeric types, alone and inside containers
+EXACT_BIG = [2 ** 53, 2 ** 62, 2 ** 63, 2 ** 63 - 1, 2 ** 64, 2 ** 64 + 1, 2 ** 70, 2 ** 100, 10 ** 22, 10 ** 23, 2 ** 127, 2 ** 128, -(2 ** 63), -(2 ** 64),
+             3 * 2 ** 80, 2 ** 1000]
+HOSTILE_STRS = ["'\\x00'", "'a\\x00b'", "'\\ud800'", "'{}'", "'{0}'", "'%s'", "'%(a)s'", "'a.*b'", "'$^'", "'\\\\'", "r'a\\b'", "'a' 'b'", "'''x'''",
+                "\"\\N{BULLET}\"", "u'x'", "'\\n'", "'\\r\\n'", "' '", "'\\u2028'", "'None'", "'nan'", "'1e5'", "'0x10'", "'１２'", "' 12 '", "'1_0'"]
+
+
+def twins(v):
+    """source texts of values numerically EQUAL to the real number v but of another numeric type / spelling (never v's own repr only)"""
+    out = [_lit(v)]
+    if isinstance(v, bool):
+        return out + [_lit(int(v)), _lit(float(v))]
+    if isinstance(v, int):
+        try:
+            f = float(v)
+        except OverflowError:
+            return out
+        if f == v:
+            out += [_lit(f), "(%s + 0j)" % _lit(v), "float(%s)" % _lit(v)]
+            if v in (0, 1):
+                out.append(repr(bool(v)))
+        return out
+    if isinstance(v, float) and v == v and not math.isinf(v) and v.is_integer():
+        out += [_lit(int(v)), "int(%s)" % _lit(v)]
+        if v in (0.0, 1.0):
+            out.append(repr(bool(v)))
+    return out
+
+
+class HostileGen(BoundaryGen):
+    """BoundaryGen plus: comparisons BETWEEN sequences (equal-but-distinct elements of different numeric types, nested, list vs tuple,
+    unequal lengths), operators on every pairing of operand kinds incl. empty operands, function objects as values (key=abs), hostile
+    string literals (NUL, lone surrogate, braces, %, raw / concatenated / triple-quoted spellings)."""
+
+    def __init__(self, rng, lower_bools=False, **kw):
+        super().__init__(rng, lower_bools=lower_bools, **kw)
+        self.seqcmp_made = 0
+        self.mixed_made = 0
+
+    # -- elements with a known Python value
+    def _elem(self):
+        r = self.r.random()
+        if r < 0.3:
+            return _lit(self.pick(EXACT_BIG))
+        if r < 0.45:
+            return self.pick(BIG_INTS)
+        if r < 0.6:
+            return self.pick(EDGE_FLOATS)
+        if r < 0.8:
+            return self.pick(INTS + FLOATS)
+        if r < 0.9:
+            return self.pick(["True", "False", "0", "1", "0.0", "1.0", "(-0.0)"])
+        return self.pick(STRS[:6])
+
+    def _other(self, src):
+        """an element equal to / next to `src` (by Python's own value of src)"""
+        v = _py_value(src)
+        if isinstance(v, (bool, int, float)):
+            r = self.r.random()
+            try:
+                if r < 0.55:
+                    return self.pick(twins(v))
+                if r < 0.7 or isinstance(v, bool):
+                    return src
+                return self.pick(neighbours(v))
+            except (ValueError, OverflowError):
+                return src
+        return src if self.r.random() < 0.8 else self._elem()
+
+    def seqcmp(self, d):
+        self.seqcmp_made += 1
+        n = self.r.choice([1, 1, 2, 2, 3])
+        a = [self._elem() for _ in range(n)]
+        b = [self._other(x) for x in a]
+        if self.r.random() < 0.25:                       # nest one position on both sides
+            i = self.r.randrange(n)
+            o, c = self.pick([("[", "]"), ("(", ",)")])
+            a[i] = o + a[i] + c
+            if self.r.random() < 0.85:
+                b[i] = o + b[i] + c
+        r = self.r.random()
+        if r < 0.1:
+            b = b[:-1]
+        elif r < 0.2:
+            b = b + [self._elem()]
+
+        def wrap(items, kind):
+            if kind == "list":
+                return "[%s]" % ", ".join(items)
+            return "(%s%s)" % (", ".join(items), "," if len(items) == 1 else "") if items else "()"
+        ka = self.pick(["list", "tuple"])
+        kb = ka if self.r.random() < 0.85 else ("tuple" if ka == "list" else "list")
+        A, B = wrap(a, ka), wrap(b, kb)
+        if self.r.random() < 0.5:
+            A, B = B, A
+        op = self.pick(["==", "!=", "==", "!=", "==", "!=", "<", "<=", ">", ">="])
+        r = self.r.random()
+        if r < 0.55:
+            return "(%s %s %s)" % (A, op, B)
+        if r < 0.7:
+            return "(%s %s %s %s %s)" % (A, op, B, self.pick(["==", "!=", "<="]), self.pick([A, B]))
+        if r < 0.8:
+            return "(not %s %s %s)" % (A, op, B)
+        if r < 0.9:
+            return "(%s if %s %s %s else %s)" % (self.num(0), A, op, B, self.num(0))
+        return "(%s %s %s %s %s)" % (A, op, B, self.pick(["and", "or"]), self.pick(["1", "0", "'x'", "[]"]))
+
+    def mixed(self, d, seq_only=False):
+        """one operator applied to operands of arbitrary kinds (often ill-typed for Python, often empty)"""
+        self.mixed_made += 1
+        self.ops += 1
+        pool = SEQ_ATOMS if seq_only else ALL_ATOMS
+        a, b = self.pick(pool), self.pick(pool)
+        if d >= 2 and self.r.random() < 0.3:
+            a = self.pick([self.lst(d - 2), self.string(d - 2), self.num(d - 2)])
+        r = self.r.random()
+        if seq_only or r < 0.45:
+            s = "(%s %s %s)" % (a, self.pick(["+", "+", "+", "*"] if seq_only else BINOPS[:7]), b)
+        elif r < 0.65:
+            s = "(%s %s %s)" % (a, self.pick(BINOPS[7:]), b)
+        elif r < 0.75:
+            s = "(%s%s)" % (self.pick(UNOPS), a)
+        elif r < 0.9:
+            s = "%s(%s)" % (self.pick(FUN_ON_ATOM), a)
+        else:
+            s = "%s(%s, %s)" % (self.pick(["max", "min", "sum", "pow", "round"]), a, b)
+        if self.r.random() < 0.3:
+            pre, post = self.pick([("len(", ")"), ("bool(", ")"), ("(", " == " + a + ")"), ("[", "]"), ("(", ", 1)"), ("(not ", ")"), ("(", " or 0)"),
+                                   ("(0 and ", ")")])
+            s = pre + s + post
+        return s
+
+    def repeated_keyword(self, d):
+        """f(a=1, a=2): the parser accepts it, Python refuses it when the call is compiled (SyntaxError)"""
+        self.calls += 1
+        return self.pick(["round(%s, ndigits=1, ndigits=2)", "round(number=%s, number=2.5)", "int('11', base=2, base=%s)", "max([1], default=%s, default=0)",
+                          "sum([1], start=%s, start=1)", "abs(%s, x=1, x=1)"]) % self.num(d - 1)
+
+    def funcvalue(self, d):
+        """allow-listed FUNCTIONS used as values (key=...)"""
+        if self.r.random() < 0.25:
+            return self.repeated_keyword(d)
+        self.calls += 1
+        return "%s(%s, key=%s)" % (self.pick(["max", "min"]), self.lst(d - 1, nonempty=self.r.random() < 0.8),
+                                   self.pick(["abs", "abs", "float", "int", "bool", "len", "round", "floor", "pi", "sqrt"]))
+
+    def num(self, d):
+        r = self.r.random()
+        if d >= 1 and r < 0.07:
+            return self.mixed(d)
+        if d >= 1 and r < 0.10:
+            return self.funcvalue(d)
+        if r < 0.13:
+            return _lit(self.pick(EXACT_BIG))
+        return super().num(d)
+
+    def boolean(self, d):
+        r = self.r.random()
+        if d >= 1 and r < 0.2:
+            self.ops += 1
+            return self.seqcmp(d)
+        if d >= 1 and r < 0.27:
+            return self.mixed(d)
+        return super().boolean(d)
+
+    def string(self, d):
+        r = self.r.random()
+        if r < 0.2:
+            return self.pick(HOSTILE_STRS)
+        if d >= 1 and r < 0.3:
+            return self.mixed(d, seq_only=True)
+        return super().string(d)
+
+    def lst(self, d, nonempty=False):
+        if not nonempty and self.r.random() < 0.15:
+            return self.mixed(d, seq_only=True)
+        return super().lst(d, nonempty)
